@@ -140,8 +140,25 @@ def handle (op : String) (args : List String) : Option (String × String × Stri
     let mt ← mtype.toNat?
     let nm ← fromHex name
     let sq ← seq.toInt?
-    -- spec message types are 1..4 for Call..Oneway
-    pure (toHex (Model.Thrift.wMessage mp mt nm sq), toHex (Spec.Thrift.message sp (mt + 1) nm sq), "thriftMessageHeader")
+    -- spec message types are 1..4 for Call..Oneway; the known-finding class is attached exactly where the written header
+    -- is not the specified one
+    let m := toHex (Model.Thrift.wMessage mp mt nm sq)
+    let s := toHex (Spec.Thrift.message sp (mt + 1) nm sq)
+    pure (m, s, if m == s then "" else "thriftMessageHeader")
+  | "thrift.readmessage", [p, h] => do          -- ReadMessage on arbitrary bytes (model only)
+    let (mp, _) ← protoOf p
+    let b ← fromHex h
+    let m := match Model.Thrift.rMessage mp b with
+      | .ok (msg, rest) => "ok:" ++ toString msg.mtype ++ " " ++ toHex msg.name ++ " " ++ toString msg.seq ++ " " ++ toString rest.length
+      | .err e => "err:" ++ errClass e
+      | .panic e => "panic:" ++ e
+    pure (m, "-", "")
+  | "thrift.readmessage", [p, h, _want] => handle "thrift.readmessage" [p, h]   -- third argument: Go-side oracle
+  | "thrift.wfield", [p, t, id, delta] => do    -- Writer.WriteField(Field{ID, Type, Delta}) (model only)
+    let (mp, _) ← protoOf p
+    let tn ← t.toNat?
+    let i ← id.toInt?
+    pure (toHex (Model.Thrift.wField mp (Model.Thrift.TType.ofCode tn) i (delta == "1")), "-", "")
   | _, _ => none
 
 end Enc.Driver.Thrift
